@@ -652,6 +652,10 @@ pub async fn udp_scenario(seed: u64, round: u64) -> (Vec<Finding>, Counters, Vec
     let mut rng = rng_from(mix3(seed, round, 0xD9));
     let valid = syn_bytes("c", &[WDigestEntry { id: WId { node_id: "client".into(), generation: 0, addr: me }, heartbeat: 1, last_gc: 0, max_version: 0 }]);
     let mut hostile: Vec<Vec<u8>> = vec![b"junk".to_vec(), vec![], vec![0u8; 1], valid[..valid.len() / 2].to_vec(), valid[..4].to_vec()];
+    // every short prefix of a valid datagram (cut inside the magic number, the version, the type, the first length field ...)
+    for l in 1..=12usize.min(valid.len()) {
+        hostile.push(valid[..l].to_vec());
+    }
     let mut big = vec![0u8; 65_507];
     big[..2].copy_from_slice(&codec::MAGIC.to_le_bytes());
     big[3] = 1;
